@@ -1,10 +1,15 @@
 """C16 - invalid arguments are refused without side effects; legacy and isal_ APIs agree."""
-from . import evidence, p_wrap_common
+from . import evidence, p_ctx_common, p_wrap_common
 
 
 def check(tier, seed, only=None):
     rep = evidence.Report("C16", tier, seed)
     p_wrap_common.run_wrappers(rep, fips=False, legacy=True, only=only)
+    # the hash submit wrappers do not test the flag word themselves: an out-of-domain flag is refused by the family's
+    # submit function, whose rejection contract (error code, `assigns(REJECTED: ctx->error)`) is proved here for every
+    # (text, parameter set) class and for the base family (same jobs as C11; seed C16_b)
+    p_ctx_common.run_ctx(rep, tier, [("submit", "proto", "per_param", "per_param")], only,
+                         extra=p_ctx_common.base_jobs(tier, ("submit",)))
     rep.default_replays()
     rep.notes.append(
         "legacy == isal_: both are proved to call the same internal routine exactly once with the same arguments "
